@@ -321,3 +321,10 @@ Proof.
   intros Hl [Hn Hs]. cbn [op_ok]. rewrite Hl in *. rewrite !layer_numel_lin in *.
   now apply resize_linear_square.
 Qed.
+
+(* Outside the Linear(w,1)+bias layers the library builds: when a parameter disappears while another grows, the
+   index correction of _reinit_bandit_grads mixes old-layout and new-layout indices. Linear(1, bias) -> Linear(3, no bias):
+   the retained weight entry (5) is lost. (The expected result would be [[5;0;0];[0;7;0];[0;0;7]].) *)
+Lemma resize_general_layer_witness :
+  reinit_bandit_grads 0 true [(0, 1); (1, 1)] [(0, 3)] 7 [[5; 1]; [1; 9]] = [[0; 0; 0]; [0; 7; 0]; [0; 0; 0]].
+Proof. vm_compute. reflexivity. Qed.
